@@ -225,3 +225,137 @@ Proof.
   - apply invE_core; assumption.
   - intros ext J. exact J.
 Qed.
+
+(* ---------- MsgCollateralRedemption ---------- *)
+Definition kc (r : arec) : Z * Z * bool := (ar_app r, ar_asset r, ar_coll r).
+
+Lemma repl_proj {T} (f : arec -> T) l r o : find_rec l (ar_app r) (ar_asset r) = Some o -> f r = f o -> map f (repl_rec l r) = map f l.
+Proof.
+  induction l as [|w l IH]; cbn [find_rec repl_rec map]; [discriminate|].
+  destruct (key_is w (ar_app r) (ar_asset r)); intros H Hc; cbn [map].
+  - injection H as <-. rewrite Hc. reflexivity.
+  - rewrite (IH H Hc). reflexivity.
+Qed.
+Lemma put_proj {T} (f : arec -> T) l r o : find_rec l (ar_app r) (ar_asset r) = Some o -> f r = f o -> map f (put_rec l r) = map f l.
+Proof. intros F Hc. unfold put_rec. rewrite F. exact (repl_proj f l r o F Hc). Qed.
+Lemma proj_in {T} (f : arec -> T) l' : forall l r', map f l' = map f l -> In r' l' -> exists r, In r l /\ f r = f r'.
+Proof.
+  induction l' as [|w' l' IH]; intros [|w l] r' H Hin; cbn [map] in *; try discriminate; [destruct Hin|].
+  assert (Hc : f w' = f w) by congruence. assert (Ht : map f l' = map f l) by congruence. destruct Hin as [<-|Hin].
+  - exists w. split; [left; reflexivity|symmetry; exact Hc].
+  - destruct (IH l r' Ht Hin) as (r & Hr & E). exists r. split; [right; exact Hr|exact E].
+Qed.
+Lemma kc_keys l l' : map kc l' = map kc l -> map rkey l' = map rkey l.
+Proof.
+  intros H. assert (E : forall m, map rkey m = map (fun t : Z * Z * bool => fst t) (map kc m)) by (intros m; rewrite map_map; reflexivity).
+  rewrite (E l'), (E l), H. reflexivity.
+Qed.
+
+Lemma repl_same l r : find_rec l (ar_app r) (ar_asset r) = Some r -> repl_rec l r = l.
+Proof.
+  induction l as [|w l IH]; cbn [find_rec repl_rec]; [discriminate|].
+  destruct (key_is w (ar_app r) (ar_asset r)); intros H; [injection H as ->; reflexivity|rewrite (IH H); reflexivity].
+Qed.
+Lemma put_same l r : find_rec l (ar_app r) (ar_asset r) = Some r -> put_rec l r = l.
+Proof. intros F. unfold put_rec. rewrite F. exact (repl_same l r F). Qed.
+
+Lemma send_funds s f t d amt s' : send s f t d amt = Ok s' -> amt = 0 \/ amt <= bal s f d.
+Proof.
+  unfold send. destruct (amt <? 0); [discriminate|]. destruct (Z.eqb_spec amt 0); [left; assumption|].
+  destruct (Z.ltb_spec (bal s f d) amt); [discriminate|]. right. assumption.
+Qed.
+
+(* what one collateral record pays for the worth [w] *)
+Definition pay_of (lc : lcfg) (ec : ecfg) (s : state) (app w : Z) (r : arec) : Z :=
+  if ar_coll r && negb (ar_amt r =? 0) then
+    match ec_dec ec (ar_asset r), rate_of lc s app (ar_asset r) with
+    | Some dec, Some rate => match payout w (ar_share r) rate dec with Some q => q | None => 0 end
+    | _, _ => 0 end
+  else 0.
+
+Lemma rate_of_bal lc s b app x : rate_of lc (set_bal s b) app x = rate_of lc s app x. Proof. reflexivity. Qed.
+
+Lemma redeem_loop_spec lc ec app from w rl : from <> ESMA -> NoDup (map rkey rl) ->
+  forall s rs pd s' rs' pd',
+  (forall r, In r rl -> find_rec rs (ar_app r) (ar_asset r) = Some r) -> (forall d, 0 <= bal s ESMA d) ->
+  redeem_loop lc ec app from w rl (s, rs, pd) = Ok (s', rs', pd') ->
+  exists b', s' = set_bal s b' /\
+    (forall a d, a <> ESMA -> a <> from -> b' a d = bal s a d) /\
+    (forall d, b' ESMA d = bal s ESMA d - (pd' d - pd d)) /\
+    (forall d, b' from d = bal s from d + (pd' d - pd d)) /\
+    (forall d, 0 <= b' ESMA d) /\
+    (forall d, pd' d - pd d = wsum (fun r => if ar_asset r =? d then pay_of lc ec s app w r else 0) rl) /\
+    (forall r, In r rl -> 0 <= pay_of lc ec s app w r) /\
+    (forall d, coll_of rs' d = coll_of rs d - (pd' d - pd d)) /\
+    (forall d, debt_of rs' d = debt_of rs d) /\
+    map kc rs' = map kc rs /\
+    (forall r, In r rl -> exists r', find_rec rs' (ar_app r) (ar_asset r) = Some r' /\ ar_amt r' = ar_amt r - pay_of lc ec s app w r) /\
+    (forall a x, ~ In (a, x) (map rkey rl) -> find_rec rs' a x = find_rec rs a x).
+Proof.
+  intros Hfe. induction rl as [|r rl IH]; intros Hnd s rs pd s' rs' pd' HF Hnn H; cbn [redeem_loop] in H.
+  - injection H as <- <- <-. exists (bal s). split; [symmetry; apply set_bal_eta|]. cbn [map In wsum].
+    repeat split; intros; rewrite ?wsum_nil; try reflexivity; try lia; try contradiction. apply Hnn.
+  - inversion Hnd as [|? ? Hny Hnd']; subst.
+    destruct (redeem_one lc ec app from w (s, rs, pd) r) as [[[s1 rs1] pd1]| |] eqn:R1; cbn [obind] in H; try discriminate H.
+    pose proof (HF r (or_introl eq_refl)) as Fr.
+    (* the head *)
+    assert (K : exists b1, s1 = set_bal s b1 /\
+      (forall a d, a <> ESMA -> a <> from -> b1 a d = bal s a d) /\
+      (forall d, b1 ESMA d = bal s ESMA d - (if ar_asset r =? d then pay_of lc ec s app w r else 0)) /\
+      (forall d, b1 from d = bal s from d + (if ar_asset r =? d then pay_of lc ec s app w r else 0)) /\
+      (forall d, 0 <= b1 ESMA d) /\ 0 <= pay_of lc ec s app w r /\
+      (forall d, pd1 d = pd d + (if ar_asset r =? d then pay_of lc ec s app w r else 0)) /\
+      rs1 = put_rec rs (with_amt r (ar_amt r - pay_of lc ec s app w r))).
+    { unfold redeem_one in R1. unfold pay_of. destruct (ec_dec ec (ar_asset r)) as [dec|] eqn:Ed; [|discriminate R1].
+      destruct (ar_coll r && negb (ar_amt r =? 0)) eqn:Cc.
+      - destruct (rate_of lc s app (ar_asset r)) as [rate|] eqn:Er; [|discriminate R1].
+        destruct (payout w (ar_share r) rate dec) as [q|] eqn:Ep; [|discriminate R1].
+        destruct (send s ESMA from (ar_asset r) q) as [s1'| |] eqn:Es; cbn [obind] in R1; try discriminate R1. injection R1 as <- <- <-.
+        pose proof (send_funds _ _ _ _ _ _ Es) as Hfu. apply send_spec in Es. destruct Es as (Hq & b1 & -> & Hb1).
+        exists b1. split; [reflexivity|]. repeat split.
+        + intros a d Ha1 Ha2. rewrite Hb1. unfold xfer. destruct (Z.eqb_spec a from); [contradiction|]. destruct (Z.eqb_spec a ESMA); [contradiction|]. cbn [andb]. lia.
+        + intros d. rewrite Hb1. unfold xfer. destruct (Z.eqb_spec ESMA from); [congruence|]. rewrite Z.eqb_refl. cbn [andb]. rewrite (Z.eqb_sym d). destruct (ar_asset r =? d); lia.
+        + intros d. rewrite Hb1. unfold xfer. rewrite Z.eqb_refl. destruct (Z.eqb_spec from ESMA); [contradiction|]. cbn [andb]. rewrite (Z.eqb_sym d). destruct (ar_asset r =? d); lia.
+        + intros d. rewrite Hb1. unfold xfer. destruct (Z.eqb_spec ESMA from); [congruence|]. rewrite Z.eqb_refl. cbn [andb].
+          pose proof (Hnn d). destruct (Z.eqb_spec d (ar_asset r)) as [->|]; [|lia]. specialize (Hnn (ar_asset r)). lia.
+        + exact Hq.
+        + intros d. unfold add1. rewrite (Z.eqb_sym d). reflexivity.
+      - injection R1 as <- <- <-. exists (bal s). split; [symmetry; apply set_bal_eta|]. repeat split; intros; try reflexivity; try lia.
+        + destruct (ar_asset r =? d); lia.
+        + destruct (ar_asset r =? d); lia.
+        + apply Hnn.
+        + destruct (ar_asset r =? d); lia.
+        + rewrite Z.sub_0_r. f_equal. unfold with_amt. destruct r; reflexivity. }
+    destruct K as (b1 & -> & K1 & K2 & K3 & K4 & K5 & K6 & ->).
+    set (q := pay_of lc ec s app w r) in *.
+    set (r1 := with_amt r (ar_amt r - q)).
+    assert (Hk : ar_app r1 = ar_app r /\ ar_asset r1 = ar_asset r /\ ar_coll r1 = ar_coll r) by (unfold r1, with_amt; cbn; auto). destruct Hk as (Hk1 & Hk2 & Hk3).
+    assert (Fr1 : find_rec rs (ar_app r1) (ar_asset r1) = Some r) by (rewrite Hk1, Hk2; exact Fr).
+    assert (HF1 : forall r2, In r2 rl -> find_rec (put_rec rs r1) (ar_app r2) (ar_asset r2) = Some r2).
+    { intros r2 H2. rewrite find_put_other; [exact (HF r2 (or_intror H2))|]. unfold rkey. rewrite Hk1, Hk2. intros Eq. apply Hny.
+      unfold rkey at 1. rewrite <- Eq. change (ar_app r2, ar_asset r2) with (rkey r2). apply in_map. exact H2. }
+    assert (Hnn1 : forall d, 0 <= bal (set_bal s b1) ESMA d) by (intros d; ssimpl; apply K4).
+    destruct (IH Hnd' (set_bal s b1) (put_rec rs r1) pd1 s' rs' pd' HF1 Hnn1 H) as
+      (b' & -> & B1 & B2 & B3 & B4 & B5 & B6 & B7 & B8 & B9 & B10 & B11).
+    assert (Hpay : forall x, pay_of lc ec (set_bal s b1) app w x = pay_of lc ec s app w x) by reflexivity.
+    exists b'. split; [reflexivity|]. ssimpl. repeat split.
+    + intros a d Ha1 Ha2. rewrite B1, K1 by assumption. reflexivity.
+    + intros d. rewrite B2, K2, K6. lia.
+    + intros d. rewrite B3, K3, K6. lia.
+    + exact B4.
+    + intros d. rewrite wsum_cons. specialize (B5 d). rewrite K6 in B5. fold q.
+      assert (E : wsum (fun r0 => if ar_asset r0 =? d then pay_of lc ec (set_bal s b1) app w r0 else 0) rl = wsum (fun r0 => if ar_asset r0 =? d then pay_of lc ec s app w r0 else 0) rl) by reflexivity.
+      rewrite E in B5. lia.
+    + intros x [<-|Hx]; [exact K5|]. rewrite <- Hpay. exact (B6 x Hx).
+    + intros d. rewrite B7, coll_of_put, Fr1, Hk3, Hk2, K6. unfold r1, with_amt. cbn [ar_amt].
+      unfold q, pay_of. destruct (ar_coll r) eqn:Cr; cbn [andb]; [|destruct (ar_asset r =? d); lia].
+      fold (pay_of lc ec s app w r). destruct (ar_asset r =? d); lia.
+    + intros d. rewrite B8, debt_of_put, Fr1, Hk3, Hk2. unfold r1, with_amt. cbn [ar_amt].
+      destruct (ar_coll r) eqn:Cr; cbn [negb andb]; [lia|]. unfold q, pay_of. rewrite Cr. cbn [andb]. destruct (ar_asset r =? d); lia.
+    + rewrite B9. apply (put_proj kc rs r1 r Fr1). unfold kc. rewrite Hk1, Hk2, Hk3. reflexivity.
+    + intros x [<-|Hx].
+      * rewrite B11 by (intros Hin; apply Hny; exact Hin). rewrite <- Hk1, <- Hk2, find_put_same. exists r1. split; [reflexivity|]. unfold r1, with_amt. reflexivity.
+      * destruct (B10 x Hx) as (x' & Fx & Ax). exists x'. split; [exact Fx|]. rewrite Ax, Hpay. reflexivity.
+    + intros a x Hni. rewrite B11 by (intros Hin; apply Hni; right; exact Hin). apply find_put_other. unfold rkey. rewrite Hk1, Hk2.
+      intros Eq. apply Hni. left. symmetry. exact Eq.
+Qed.
